@@ -73,7 +73,7 @@ func worldC10(w *World) {
 		name := names[t.Choice(len(names), "cname")]
 		val := fmt.Sprintf("b%d-v%d-%d", b, k, t.Choice(1000, "cval"))
 		s := name + "=" + val
-		switch t.Pick("cattr", 4, 2, 2, 2, 2, 2, 1, 1) {
+		switch t.Pick("cattr", 4, 2, 2, 2, 2, 2, 1, 1, 1) {
 		case 1:
 			s += "; Path=" + paths[t.Choice(len(paths), "cpath")]
 		case 2:
@@ -86,6 +86,11 @@ func worldC10(w *World) {
 			s = name + "=gone; Max-Age=0" // delete
 		case 6:
 			s = name + "=old; Expires=Thu, 01 Jan 1970 00:00:00 GMT"
+		case 8:
+			// a line browsers accept but Go's cookie parser rejects (the reference jar, which
+			// parses the same way, never holds it; it must still not reach the client)
+			s = []string{"prefs[theme]=dark; Path=/", "my name=x", "lang=fran\xe7ais; Path=/"}[t.Choice(3, "oddcookie")]
+			w.Probe("set_cookie_line_the_parser_rejects")
 		case 7:
 			// a cookie for the whole public suffix: a compliant jar refuses it
 			s += "; Domain=" + suffix
